@@ -144,6 +144,7 @@ func EvaluateAlignment(fromDomain string, record *Record, results []authres.Resu
 		dkimResult   = authres.DKIMResult{}
 		dkimPresent  = false
 		dkimTempFail = false
+		spfTempFail  = false
 	)
 	for _, res := range results {
 		if dkimRes, ok := res.(*authres.DKIMResult); ok {
@@ -175,6 +176,9 @@ func EvaluateAlignment(fromDomain string, record *Record, results []authres.Resu
 			if aligned && spfRes.Value == authres.ResultPass {
 				spfAligned = true
 			}
+			if aligned && spfRes.Value == authres.ResultTempError {
+				spfTempFail = true
+			}
 		}
 	}
 
@@ -203,8 +207,9 @@ func EvaluateAlignment(fromDomain string, record *Record, results []authres.Resu
 		}
 		return res
 	}
-	if !dkimAligned && spfResult.Value == authres.ResultTempError {
-		// We can't be sure whether it is aligned or not. Bail out.
+	if spfTempFail && !dkimAligned {
+		// We can't be sure whether it would pass or not. Bail out. Same as
+		// for DKIM, the error matters only for the identifier that is aligned.
 		res.Authres = authres.DMARCResult{
 			Value:  authres.ResultTempError,
 			Reason: "SPF authentication temp error",
